@@ -15,7 +15,7 @@ operators, exact integer aggregators) is executed
 
 and every run is compared with c16lib.reference (plain Python) and with (a).
 Scenario (f) (vlib/c03fault.py) runs pipelines in which the update of one aggregate
-fails on one batch, with ignore_error off and on, fused / chained / threaded, and
+fails on one batch (or the last operator fails outside the per-element skippable call), with ignore_error off and on, fused / chained / threaded, and
 demands that every strategy ends the same way (raised | completed with equal result)
 as the fused single-threaded run.
 Chunks are single-engine (a child interpreter either installs the scheduler
@@ -48,6 +48,7 @@ RULE = (
     'exception type on one random batch (or none), run with ignore_error off and on as ONE fused stage '
     '(aggregate().add_aggregate()), the same with num_threads 1-3, as 2 random chains of named stages, as '
     'such a chain with num_threads on random stages, and periodically with every element a stage of its own; '
+    'every third pipeline also as a variant whose LAST operator is a column-adding apply (optionally with batch_size) that fails OUTSIDE the skippable call on one random batch (one output too many | a scalar under batch_size) or not at all; '
     'every run is compared with the fused single-threaded run of the same ignore_error flag: same outcome '
     'class (raised | completed) and, when completed, same batches and aggregates). Non-trivial = the strategy differs from the reference '
     'in threads / stages / shards / runner and the dataset has >= 2 elements; distinct = hash of (spec, '
@@ -60,6 +61,7 @@ ASSUMPTIONS = [
     'in the interleaved runner the aggregate of a stage is read from that stage\'s result_queue.returned; only the last stage must not carry any other returned value',
     'strategy (d) uses shardable sources only (SequenceDataSource: contiguous shards, ShardedIterable: round-robin shards)',
     'scenario (f): every operator behind the first aggregation only ADDS a column (assign), filters stand in front of the first aggregation, so every chain of named stages has a one-stage twin (aggregate().add_aggregate()) that computes the same thing; the failing aggregate raises from update_state (ValueError / TypeError / RuntimeError / KeyError / ZeroDivisionError); only the outcome class (raised | completed) and the result of completed runs are compared, not the exception type and not the batches delivered before an error; fault-free runs must equal the plain-Python model; what a pipeline should do with a failing aggregation under ignore_error is NOT prescribed (raising and skipping the batch are both accepted as long as every strategy does the same)',
+    'scenario (f), fault class "an operator fails outside the skippable call": the failing operator is the LAST operator of the pipeline in spec order (a column-adding apply(fn, input_keys=all columns, output_keys=all columns + one[, batch_size=rows per batch]); aggregations may follow in the same or in later stages), so that no other operator of a fused or chained layout gets to skip its error and no aggregate upstream has counted a batch that a later operator drops (what ignore_error should do in those cases is not prescribed by the property); two triggers: one result value more than output_keys, a scalar where batch_size re-batches a column; a chained layout never puts num_threads > 0 on the failing stage when that stage has a stage downstream (in the current tree the downstream stage then skips the same stored error forever: same input class, but every case would cost two 60 s watchdogs); oracle as for failing aggregates (outcome class and, when completed, batches and aggregates equal to the fused single-threaded run; fault-free variants equal to the plain-Python model)',
 ]
 REQUIRED = [
     'strategy_a', 'strategy_b_sched', 'strategy_b_native', 'strategy_c', 'strategy_c_named',
@@ -74,6 +76,9 @@ REQUIRED = [
     'fault_results_compared', 'fault_both_raised', 'fault_class_no_fault',
     'fault_class_fault_in_final_stage', 'fault_class_fault_in_final_stage_ignore_error',
     'fault_class_fault_in_non_final_stage', 'fault_class_fault_in_non_final_stage_ignore_error',
+    'fault_class_op_fault_in_final_stage', 'fault_class_op_fault_in_final_stage_ignore_error',
+    'fault_class_op_fault_in_non_final_stage', 'fault_class_op_fault_in_non_final_stage_ignore_error',
+    'fault_op_arity_cases', 'fault_op_nonbatch_cases', 'fault_free_apply_model_checks',
 ]
 CHUNK_TIMEOUT_S = {'quick': 300, 'thorough': 3000}
 
@@ -705,6 +710,7 @@ def check_shard_of_sharded_source(ctx, kind, n, own, k):
 # -- (f) an aggregation fails: the strategies agree on the outcome ---------------------
 
 K_TRUNC = 'chained-upstream-aggregation-error-truncates-run-under-ignore-error'
+K_OPTRUNC = 'chained-upstream-operator-error-outside-skippable-call-truncates-run'
 FAULT_WITNESSES_PER_CLASS = 3
 
 
@@ -759,6 +765,8 @@ def check_fault_case(ctx, case, ref=None):
   if any(layout['threads']):
     ctx.count('fault_runs_threaded')
   ctx.count('fault_class_' + fcls.replace('-', '_') + ('_ignore_error' if ie else ''))
+  if 'op' in (fspec.get('fault') or {}):
+    ctx.count('fault_op_' + fspec['fault']['mode'] + '_cases')
   ctx.case(('fault', fspec, layout, ie), len(mdl['outs']) >= 2)
   if res is None:
     return
@@ -766,8 +774,8 @@ def check_fault_case(ctx, case, ref=None):
   got = collections.Counter(res['outs'])
   if res['cls'] != ref['cls']:
     mech = f'{tag}:{res["cls"]}-but-fused-twin-{ref["cls"]}'
-    if (ie and fcls == 'fault-in-non-final-stage' and layout['kind'] == 'chained'
-        and res['cls'] == 'completed'):
+    if (ie and fcls in ('fault-in-non-final-stage', 'op-fault-in-non-final-stage')
+        and layout['kind'] == 'chained' and res['cls'] == 'completed'):
       # Input class of the audited defect: ignore_error, the failing aggregate has a
       # stage downstream. Signature: the run ends normally, holds nothing but
       # batches of the dataset, lacks the refused batch (single-threaded: it is
@@ -780,7 +788,7 @@ def check_fault_case(ctx, case, ref=None):
       else:
         sig = res['outs'] == before
       if sig:
-        mech = K_TRUNC
+        mech = K_OPTRUNC if fcls.startswith('op-') else K_TRUNC
     _fviol(ctx, 'outcome_differs_between_strategies', case,
            {'this_run': _short(res), 'fused_single_threaded_twin': _short(ref),
             'batches_of_the_dataset': sum(full.values()),
@@ -819,6 +827,8 @@ def run_fault_reference(ctx, fspec, ie, mdl=None):
     return None
   if not fspec.get('fault'):
     ctx.count('fault_free_model_checks')
+    if any(el[0] == 'apply' for el in fspec['els']):
+      ctx.count('fault_free_apply_model_checks')
     want = [F.canon_batch(o) for o in mdl['outs']]
     if ref['cls'] != 'completed':
       _fviol(ctx, 'run_raised', case, _short(ref), f'{tag}:raises:{ref.get("exc")}')
@@ -835,6 +845,9 @@ def chunk_fault(ctx, spec):
   from vlib import c03fault as F
   sys.setswitchinterval(1e-5)
   rng = random.Random(spec['rseed'] * 1000003 + spec['chunk'] * 13 + 5)
+  # The second fault class draws from a stream of its own: the cases of the first
+  # one stay what they were.
+  rng2 = random.Random(spec['rseed'] * 7919 + spec['chunk'] * 31 + 11)
   runs = 0
   for i in range(spec['n_pipe']):
     fspec = F.gen_fspec(rng)
@@ -863,9 +876,47 @@ def chunk_fault(ctx, spec):
         runs += 1
     if len(ctx.samples) < 2 and fspec.get('fault'):
       ctx.sample({'fspec': fspec, 'layouts': layouts[:3]})
+    if i % 3 == 1:
+      runs += chunk_fault_op(ctx, rng2, fspec, i)
     if runs > 200:
       gc.collect()
       runs = 0
+
+
+def chunk_fault_op(ctx, rng, base, i):
+  """Fault class 'the last operator fails outside the skippable call' on a variant
+  of the pipeline `base`: fused with threads, 2 random chains, one of them with
+  threads (never on a failing stage that has a stage downstream, see ASSUMPTIONS),
+  periodically every element a stage of its own."""
+  from vlib import c03fault as F
+  # i % 12 == 1: fault-free (the apply operator against the model); otherwise failing
+  fspec = F.with_last_apply(rng, base, p_fault=0.0 if i % 12 == 1 else 1.0)
+  if fspec is None:
+    return 0
+  if fspec.get('fault'):
+    fspec['fault']['mode'] = F.OP_FAULT_MODES[(i // 3) % 2]   # both modes in every chunk
+    next(el for el in fspec['els'] if el[0] == 'apply')[5] = (
+        fspec['rec'] if fspec['fault']['mode'] == 'nonbatch' else rng.choice([0, fspec['rec']]))
+  layouts = [F.fused_layout(rng.randint(1, 3))]
+  for p_split in (0.3, 0.7):
+    layouts.append(F.gen_chained_layout(rng, fspec, p_split))
+  if i % 6 == 1:
+    layouts.append({'kind': 'chained', 'threads': [0] * (len(fspec['els']) + 1),
+                    'stages': list(range(len(fspec['els']) + 1))})
+  lay = F.with_threads(rng, rng.choice(layouts[1:3]))
+  if F.fault_class(fspec, lay) == 'op-fault-in-non-final-stage':
+    lay['threads'][F.fault_stage(fspec, lay)] = 0
+  if any(lay['threads']):
+    layouts.append(lay)
+  runs = 0
+  for ie in (False, True):
+    ref = run_fault_reference(ctx, fspec, ie)
+    if ref is None:
+      continue
+    for layout in layouts:
+      check_fault_case(ctx, {'strategy': 'fault', 'fspec': fspec, 'layout': layout, 'ie': ie}, ref)
+      runs += 1
+  return runs
 
 
 def run_chunk(ctx, spec):
